@@ -26,6 +26,9 @@ CROSS = {
     # wave 4
     "C02-A4": ["C03"], "C04-B4": ["C07"], "C05-B4": ["C12"], "C07-B4": ["C16", "C01"], "C01-A4": ["C07"], "C11-A4": ["C10"], "C11-B4": ["C02"],
     "C08-A4": ["C01"],
+    # wave 5
+    "C01-B5": ["C11"], "C04-B5": ["C12"], "C11-A5": ["C12"], "C11-B5": ["C10"], "C16-B5": ["C01"], "C14-B5": ["C01", "C16"], "C08-A5": ["C01"], "C08-B5": ["C16"],
+    "C07-A5": ["C01"], "C07-B5": ["C13"], "C09-B5": ["C01"],
 }
 
 
@@ -66,6 +69,13 @@ def run_one(mid, prop):
 def main():
     want = sys.argv[1:]
     ids = sorted(d for d in os.listdir(SEEDED) if os.path.exists(os.path.join(SEEDED, d, "patch.diff")))
+    # changes that a later fix: commit neutralized are kept for the record but not run
+    def superseded(d):
+        try:
+            return "superseded" in json.load(open(os.path.join(SEEDED, d, "meta.json")))
+        except Exception:
+            return False
+    ids = [d for d in ids if not superseded(d)]
     if want:
         ids = [i for i in ids if any(i.startswith(w) for w in want)]
     mpath = os.path.join(SEEDED, "matrix.json")
